@@ -161,7 +161,7 @@ pub(crate) fn sign_internal<
 >(
     beta: i32, gamma1: i32, gamma2: i32, omega: i32, tau: i32, esk: &PrivateKey<K, L>,
     message: &[u8], ctx: &[u8], oid: &[u8], phm: &[u8], rnd: [u8; 32], nist: bool,
-) -> [u8; SIG_LEN] {
+) -> Result<[u8; SIG_LEN], &'static str> {
     //
     // 1: (ρ, K, tr, s_1, s_2, t_0) ← skDecode(sk)
     // --> calculated in `expand_private()` near the bottom of this file
@@ -202,6 +202,11 @@ pub(crate) fn sign_internal<
 
     // 8: κ ← 0    ▷ Initialize counter κ
     let mut kappa_ctr = 0u16;
+    // κ + r is serialised into two bytes by ExpandMask, so κ must stay at or below `kappa_max`. A malformed
+    // (but accepted) private key can make the rejection loop run that long; per FIPS 204 Appendix C the
+    // loop is then abandoned with an error rather than overflowing (or silently re-using) the counter.
+    let ell = u16::try_from(L).expect("cannot fail; L is static parameter");
+    let kappa_max = u16::MAX - (ell - 1);
 
     // 9: (z, h) ← ⊥    ▷ we will handle ⊥ inline with 'continue'
     let mut z: [R; L];
@@ -278,7 +283,7 @@ pub(crate) fn sign_internal<
         let r0_norm = infinity_norm(&r0);
         // CTEST is used only for constant-time measurements via `dudect`
         if !CTEST && ((z_norm >= (gamma1 - beta)) || (r0_norm >= (gamma2 - beta))) {
-            kappa_ctr += u16::try_from(L).expect("cannot fail; L is static parameter");
+            kappa_ctr = next_kappa(kappa_ctr, ell, kappa_max)?;
             continue;
             //
             // 24: else  ... not needed with 'continue'
@@ -313,7 +318,7 @@ pub(crate) fn sign_internal<
             && ((infinity_norm(&c_t_0) >= gamma2)
                 || (h.iter().map(|h_i| h_i.0.iter().sum::<i32>()).sum::<i32>() > omega))
         {
-            kappa_ctr += u16::try_from(L).expect("cannot fail; L is static parameter");
+            kappa_ctr = next_kappa(kappa_ctr, ell, kappa_max)?;
             continue;
             // 29: end if
         }
@@ -333,7 +338,16 @@ pub(crate) fn sign_internal<
     // 34: return σ
     let zmodq: [R; L] =
         core::array::from_fn(|l| R(core::array::from_fn(|n| center_mod(z[l].0[n]))));
-    sig_encode::<CTEST, K, L, LAMBDA_DIV4, SIG_LEN>(gamma1, omega, &c_tilde, &zmodq, &h)
+    Ok(sig_encode::<CTEST, K, L, LAMBDA_DIV4, SIG_LEN>(gamma1, omega, &c_tilde, &zmodq, &h))
+}
+
+
+/// Step 31 of Algorithm 7, `κ ← κ + ℓ`, refusing to go past the largest value ExpandMask can serialise.
+fn next_kappa(kappa: u16, ell: u16, kappa_max: u16) -> Result<u16, &'static str> {
+    match kappa.checked_add(ell) {
+        Some(next) if next <= kappa_max => Ok(next),
+        _ => Err("ML-DSA.Sign_internal: rejection loop exhausted the ExpandMask counter"),
+    }
 }
 
 
